@@ -1221,6 +1221,9 @@ static qtreetbl_obj_t *put_obj(qtreetbl_t *tbl, qtreetbl_obj_t *obj,
         qtreetbl_obj_t *newobj = new_obj(true, name, namesize, data, datasize);
         if (newobj != NULL) {
             tbl->num++;
+            // the caller judges by errno; a successful malloc() may leave
+            // ENOMEM behind (glibc does when brk() fails and mmap() helps out)
+            errno = 0;
         }
         return newobj;
     }
@@ -1240,6 +1243,9 @@ static qtreetbl_obj_t *put_obj(qtreetbl_t *tbl, qtreetbl_obj_t *obj,
             free(obj->data);
             obj->data = copydata;
             obj->datasize = (copydata != NULL) ? datasize : 0;
+            errno = 0;  // see above
+        } else {
+            errno = ENOMEM;
         }
     } else if (cmp < 0) {
         obj->left = put_obj(tbl, obj->left, name, namesize, data, datasize);
